@@ -83,6 +83,9 @@ class Quaternion(SMUserList):
             elif base.isvector(s, 4):
                 self.data = [base.getvector(s)]
 
+            else:
+                raise ValueError('bad argument to Quaternion constructor')
+
         elif base.isscalar(s) and base.isvector(v, 3):
             # Quaternion(s, v)
             self.data = [np.r_[s, base.getvector(v)]]
